@@ -287,7 +287,7 @@ def main(tier):
         ck.extra["code_reached"] = {k: v for k, v in o["reached"].items() if k.startswith("jaxley")}
     for can, oc in zip(CANARIES, outs[1:]):
         ref = oc[0] == "ok" and not oc[1]["error"] and (bool(oc[1]["bounded_bad"]) or any(r["status"] != "proved" for r in oc[1]["results"]))
-        ck.canaries.append((f"{can[0]}: {can[2][:40]!r} -> ...", ref))
+        ck.canary(f"{can[0]}: {can[2][:40]!r} -> ...", ref, oc)
     for f in ("jaxley.modules.base.Module.to_jax", "jaxley.modules.base.Module.get_all_parameters", "jaxley.modules.base.Module.get_all_states", "jaxley.modules.base.Module.step",
               "jaxley.modules.base.Module._step_channels_state", "jaxley.modules.base.Module._channel_currents", "jaxley.utils.cell_utils.compute_axial_conductances"):
         ck.add_function(f, "body discharged" if not ck.violations else "body NOT discharged")
